@@ -21,17 +21,33 @@ pub struct Stored {
     expect: Item,
 }
 
+/// Values of every size class up to the legal maximum of 1000 bytes: a short text, 640 bytes, 1000 bytes (with the `nodes`
+/// list of a storing node that knows 20 peers the answer is a datagram of about 1.6 kB)
+fn sized(mut val: Vec<u8>, i: u64) -> Vec<u8> {
+    let want = match i % 5 {
+        1 => 1000,
+        3 => 640,
+        _ => val.len(),
+    };
+    let mut k = 0u8;
+    while val.len() < want {
+        val.push(b'a' + (k % 26));
+        k = k.wrapping_add(7);
+    }
+    val
+}
+
 pub fn make_item(kind: &'static str, i: u64, writer: SocketAddrV4) -> Stored {
     match kind {
         "immutable" => {
-            let val = format!("immutable value number {i}").into_bytes();
+            let val = sized(format!("immutable value number {i}").into_bytes(), i);
             let t = crypto::immutable_target(&val);
             Stored { kind, target: t, request: PutRequestSpecific::PutImmutable(v::PutImmutableRequestArguments { target: Id::from(t), v: val.clone().into() }), get: GetKind::Immutable, expect: Item::Immutable(val) }
         }
         "mutable" | "mutable_salt" => {
             let sk = crypto::keypair(7);
             let salt: Option<Vec<u8>> = if kind == "mutable_salt" { Some(format!("salt{i}").into_bytes()) } else { None };
-            let val = format!("mutable value {i}").into_bytes();
+            let val = sized(format!("mutable value {i}").into_bytes(), i);
             let item = MutableItem::new(&sk, &val, 40 + i as i64, salt.as_deref());
             let t = *item.target().as_bytes();
             let expect = Item::from_mutable(&item);
